@@ -8,8 +8,6 @@ Import ListNotations.
 Close Scope Z_scope. Close Scope Q_scope. Close Scope Qc_scope.
 
 (* ---------- the regenerated tables are the model's decision functions (finite, by computation) ---------- *)
-Definition atom_domain : list (Z * Z * Z) :=
-  flat_map (fun l => flat_map (fun o => [(l, o, 1%Z); (l, o, (-1)%Z)]) [0; 1; 2; 3]%Z) [0; 1; 2; 3]%Z.
 Lemma atom_table_domain : map (fun r => match r with (l, o, s, _, _) => (l, o, s) end) atom_table = atom_domain.
 Proof. vm_compute. reflexivity. Qed.
 Lemma atom_table_model :
@@ -63,6 +61,9 @@ Section Proofs.
   Notation "- a" := (kopp O a).
   Notation z0 := (k0 O). Notation z1 := (k1 O). Notation ii := (ki O).
   Notation Kmat := (matrix (K:=K)).
+
+  Notation id_matrix := (id_matrix O). Notation plike_matrix := (plike_matrix O). Notation lin_ip := (lin_ip O).
+  Notation atom_row_ok := (atom_row_ok O).
 
   Lemma ii2 : ii * ii = - z1. Proof. exact (plaw_i O L). Qed.
 
@@ -189,11 +190,6 @@ Section Proofs.
 
   (* every row of the regenerated atom table is a true statement about 2x2 matrices:
      sign = -1 (inplace_left_multiply_by, PauliString.__mul__): old . lhs; sign = +1: lhs . old *)
-  Definition atom_row_ok (row : Z * Z * Z * Z * Z) : Prop :=
-    match row with (l, o, s, n, ret) =>
-      let A := pauli_mat O (pauli_of_code l) in let B := pauli_mat O (pauli_of_code o) in
-      (if (s =? 1)%Z then mmul O A B else mmul O B A) = mscale O (ipow O ret) (pauli_mat O (pauli_of_code n))
-    end.
   Theorem atom_table_sound : Forall atom_row_ok atom_table.
   Proof.
     repeat (apply Forall_cons; [cbn; repeat (apply (f_equal2 cons); [|try reflexivity]); try reflexivity; ring [ii2]|]).
@@ -424,7 +420,6 @@ Section Proofs.
       destruct Hx as [Hx|Hx]; [|right; right; exact Hx].
       apply pm_set_incl in Hx. destruct Hx as [<-|Hx]; [right; left; reflexivity|left; exact Hx].
   Qed.
-  Definition keys_ok (qs : list qid) (m : pmap) : Prop := NoDup (pm_keys m) /\ incl (pm_keys m) qs.
   Lemma imul_items_keys_ok sign qs (P : pstr) items :
     keys_ok qs (pm P) -> incl (pm_keys items) qs -> keys_ok qs (pm (imul_items O sign P items)).
   Proof.
@@ -461,15 +456,14 @@ Section Proofs.
 
   (* identity string *)
   Lemma letters_nil qs : letters qs [] = map (fun _ => pI) qs. Proof. reflexivity. Qed.
-  Lemma zip_phase_I_l qs l : zip_phase (map (fun _ : qid => pI) qs) l = 0%Z.
+  Lemma zip_phase_I_l {A} (qs : list A) l : zip_phase (map (fun _ : A => pI) qs) l = 0%Z.
   Proof. revert l. induction qs as [|q qs IH]; intros [|x l]; simpl; try reflexivity. rewrite IH, ?mul_phase_I_l. reflexivity. Qed.
-  Lemma zip_phase_I_r qs l : zip_phase l (map (fun _ : qid => pI) qs) = 0%Z.
+  Lemma zip_phase_I_r {A} (qs : list A) l : zip_phase l (map (fun _ : A => pI) qs) = 0%Z.
   Proof. revert l. induction qs as [|q qs IH]; intros [|x l]; simpl; try reflexivity. rewrite IH, ?mul_phase_I_r. reflexivity. Qed.
-  Lemma zip_xor_I_l qs l : length l = length qs -> zip_xor (map (fun _ : qid => pI) qs) l = l.
+  Lemma zip_xor_I_l {A} (qs : list A) l : length l = length qs -> zip_xor (map (fun _ : A => pI) qs) l = l.
   Proof. revert l. induction qs as [|q qs IH]; intros [|x l] H; try discriminate; simpl; [reflexivity|]. rewrite ?pxor_I_l, IH by (simpl in H; lia). reflexivity. Qed.
-  Lemma zip_xor_I_r qs l : length l = length qs -> zip_xor l (map (fun _ : qid => pI) qs) = l.
+  Lemma zip_xor_I_r {A} (qs : list A) l : length l = length qs -> zip_xor l (map (fun _ : A => pI) qs) = l.
   Proof. revert l. induction qs as [|q qs IH]; intros [|x l] H; try discriminate; simpl; [reflexivity|]. rewrite ?pxor_I_r, IH by (simpl in H; lia). reflexivity. Qed.
-  Definition id_matrix (qs : list qid) : Kmat := dense_matrix O z1 (map (fun _ => pI) qs).
   Lemma id_matrix_l qs c l : length l = length qs -> mmul O (id_matrix qs) (dense_matrix O c l) = dense_matrix O c l.
   Proof.
     intros H. unfold id_matrix. rewrite dense_mul_matrix by (rewrite map_length; lia).
@@ -509,15 +503,6 @@ Section Proofs.
   Qed.
 
   (* ----- PAULI_STRING_LIKE contents: every atom multiplies on the stated side, sequences in order ----- *)
-  Definition plike_matrix (qs : list qid) (x : plike (K:=K)) : Kmat :=
-    match x with
-    | LPS p => ps_matrix O qs p
-    | LNum c => dense_matrix O c (map (fun _ => pI) qs)
-    | LMap m => dense_matrix O z1 (letters qs m)
-    | LId => id_matrix qs
-    end.
-  Definition plike_ok (qs : list qid) (x : plike (K:=K)) : Prop :=
-    match x with LPS p => keys_ok qs (pm p) | LMap m => keys_ok qs m | _ => True end.
   Lemma imul_like_sound_right qs (P : pstr) x : NoDup qs -> plike_ok qs x ->
     ps_matrix O qs (imul_like O (-1) P x) = mmul O (ps_matrix O qs P) (plike_matrix qs x).
   Proof.
@@ -683,7 +668,6 @@ Section Proofs.
   Theorem ds_commutes_spec la lb : length la = length lb -> ds_commutes la lb = Nat.even (count_anti la lb).
   Proof. intros H. unfold ds_commutes. rewrite vphase_zip by exact H. apply zip_phase_even. Qed.
 
-  Definition no_I (m : pmap) : Prop := forall e, In e m -> snd e <> pI.
   Lemma pm_mem_get m q : no_I m -> pm_mem m q = negb (is_pI (pm_get m q)).
   Proof.
     intros Hn. induction m as [|[k v] m IH]; simpl; [reflexivity|].
@@ -970,7 +954,6 @@ Section Proofs.
   Lemma tabm_ext_in E f g : (forall r c, In r E -> In c E -> f r c = g r c) -> tabm E f = tabm E g.
   Proof. intros H. unfold tabm. apply map_ext_in. intros r Hr. apply map_ext_in. intros c Hc. apply H; assumption. Qed.
 
-  Definition psum_ok (qs : list qid) (s : psum (K:=K)) : Prop := Forall (fun e => keys_ok qs (fst e)) s.
   Lemma ps_mul_keys_ok qs (t u : pstr) : keys_ok qs (pm t) -> keys_ok qs (pm u) -> keys_ok qs (pm (ps_mul O t u)).
   Proof.
     intros Ht Hu. unfold ps_mul, ps_make, imul_contents, imul_seq. simpl fold_left.
@@ -1048,6 +1031,78 @@ Section Proofs.
        mmul O (dense_matrix O ca la) (dense_matrix O cb lb)
        = mscale O (- z1) (mmul O (dense_matrix O cb lb) (dense_matrix O ca la))).
   Proof. intros H. rewrite (ds_commutes_spec la lb H). apply dense_commute_iff. exact H. Qed.
+
+  (* ----- D2, converse: if the matrices commute and 2 ca cb <> 0 then the test says so ----- *)
+  Lemma in_bits_of_length : forall n r, length r = n -> In r (bits n).
+  Proof.
+    induction n as [|n IH]; intros [|x r] H; try discriminate; [left; reflexivity|].
+    simpl. apply in_or_app. destruct x; [right|left]; apply in_map; apply IH; simpl in H; lia.
+  Qed.
+  Definition xbit (p : pauli) : bool := match p with pX | pY => true | _ => false end.
+  Definition ybit (p : pauli) : Z := match p with pY => (-1)%Z | _ => 0%Z end.
+  Lemma pl_entry_unit l :
+    pl_entry l (map (fun _ => false) l) (map xbit l) = ipow O (sumZ (map ybit l)).
+  Proof.
+    induction l as [|p l IH]; simpl; [reflexivity|]. rewrite IH, ipow_add. destruct p; cbn; ring.
+  Qed.
+  Theorem dense_commute_conv ca cb la lb : length la = length lb ->
+    ca * cb + ca * cb <> z0 ->
+    mmul O (dense_matrix O ca la) (dense_matrix O cb lb) = mmul O (dense_matrix O cb lb) (dense_matrix O ca la) ->
+    Nat.even (count_anti la lb) = true.
+  Proof.
+    intros Hlen Hnz Hcomm. destruct (Nat.even (count_anti la lb)) eqn:He; [reflexivity|exfalso].
+    pose proof (dense_commute_sign ca cb la lb Hlen) as Hs. rewrite He, <- Hcomm in Hs.
+    rewrite dense_mul_matrix, dense_matrix_scale in Hs by exact Hlen.
+    rewrite !dense_matrix_tab in Hs.
+    set (l := zip_xor la lb) in *. set (c := ca * cb * ipow O (zip_phase la lb)) in *.
+    assert (Hr : In (map (fun _ => false) l) (bits (length l))) by (apply in_bits_of_length; apply map_length).
+    assert (Hc : In (map xbit l) (bits (length l))) by (apply in_bits_of_length; apply map_length).
+    pose proof (tabm_inj _ _ _ Hs _ _ Hr Hc) as He'. cbv beta in He'. rewrite pl_entry_unit in He'.
+    apply Hnz.
+    assert (Hu : ipow O (sumZ (map ybit l)) * ipow O (- sumZ (map ybit l)) = z1)
+      by (rewrite <- ipow_add, Z.add_opp_diag_r; reflexivity).
+    assert (Hv : ipow O (zip_phase la lb) * ipow O (- zip_phase la lb) = z1)
+      by (rewrite <- ipow_add, Z.add_opp_diag_r; reflexivity).
+    transitivity ((c * ipow O (sumZ (map ybit l)) + c * ipow O (sumZ (map ybit l)))
+                  * (ipow O (- sumZ (map ybit l)) * ipow O (- zip_phase la lb))).
+    - unfold c.
+      transitivity ((ca * cb + ca * cb) * (ipow O (zip_phase la lb) * ipow O (- zip_phase la lb))
+                    * (ipow O (sumZ (map ybit l)) * ipow O (- sumZ (map ybit l)))); [rewrite Hu, Hv; ring|ring].
+    - rewrite He' at 1. ring.
+  Qed.
+  Theorem pauli_commute_conv qs (a b : pstr) : NoDup qs -> keys_ok qs (pm a) -> no_I (pm a) -> no_I (pm b) ->
+    coef a * coef b + coef a * coef b <> z0 ->
+    mmul O (ps_matrix O qs a) (ps_matrix O qs b) = mmul O (ps_matrix O qs b) (ps_matrix O qs a) ->
+    ps_commutes (pm a) (pm b) = true.
+  Proof.
+    intros Hqs Ha HIa HIb Hnz Hc. rewrite (ps_commutes_spec qs (pm a) (pm b) Hqs Ha HIa HIb).
+    apply (dense_commute_conv (coef a) (coef b)); [rewrite !letters_length; reflexivity|exact Hnz|exact Hc].
+  Qed.
+
+  (* ----- D5 (algebraic core): since P.P = I, the operators a I + b P are closed under products, with the group law of
+     the eigenvalue pair (a+b on the +1 eigenspace, a-b on the -1 eigenspace); U 0 1 = P ----- *)
+  Theorem phasor_algebra l a b a' b' :
+    mmul O (lin_ip l a b) (lin_ip l a' b') = lin_ip l (a * a' + b * b') (a * b' + b * a').
+  Proof.
+    unfold lin_ip. rewrite !dense_matrix_tab, !map_length, !madd_tabm, mmul_tabm by apply bits_nonempty.
+    apply tabm_ext. intros r c.
+    set (I_ := map (fun _ : pauli => pI) l).
+    rewrite (ksum_ext _ (fun m => (a * a') * (pl_entry I_ r m * pl_entry I_ m c) + ((a * b') * (pl_entry I_ r m * pl_entry l m c)
+                 + ((b * a') * (pl_entry l r m * pl_entry I_ m c) + (b * b') * (pl_entry l r m * pl_entry l m c)))))
+      by (intros; ring).
+    rewrite !ksum_plus, !ksum_scale.
+    assert (HI : length I_ = length l) by apply map_length.
+    rewrite <- HI at 1 2. rewrite (pl_entry_mul I_ I_ r c eq_refl), (pl_entry_mul I_ l r c HI).
+    rewrite (pl_entry_mul l I_ r c (eq_sym HI)), (pl_entry_mul l l r c eq_refl).
+    rewrite !zip_phase_self, !zip_xor_self. unfold I_.
+    rewrite ?zip_phase_I_l, ?zip_phase_I_r.
+    rewrite ?zip_xor_I_l, ?zip_xor_I_r by (rewrite ?map_length; reflexivity).
+    rewrite ?map_map, ipow_0. ring.
+  Qed.
+  Lemma lin_ip_P l : lin_ip l z0 z1 = dense_matrix O z1 l.
+  Proof.
+    unfold lin_ip. rewrite !dense_matrix_tab, map_length, madd_tabm. apply tabm_ext. intros; ring.
+  Qed.
 End Proofs.
 
 (* ---------- the executable comparison instance Q(i) satisfies the laws the theorems assume ---------- *)
@@ -1070,3 +1125,30 @@ Section LetterMatrix.
       repeat (apply (f_equal2 cons); [|try reflexivity]); try reflexivity; ring.
   Qed.
 End LetterMatrix.
+
+(* D5 in the eigenvalue parametrisation of PauliStringPhasor: phase wn on the -1 eigenspace and wp on the +1 eigenspace of P
+   is (wp+wn)/2 I + (wp-wn)/2 P; such operators compose by multiplying the phases (so exponents add: merged_with, __pow__),
+   and (wn, wp) = (-1, 1) is P itself.  Needs 1/2, hence the full Laws. *)
+Section Phasor.
+  Context {K : Type} (O : Ops K) (L : Laws O).
+  Add Ring Kring3 : (law_ring O L).
+  Infix "+" := (kadd O). Infix "*" := (kmul O). Infix "-" := (ksub O).
+  Notation hf := (khalf O).
+  Notation phasor_mat := (phasor_mat O).
+  Lemma half2' : (k1 O + k1 O) * hf = k1 O.
+  Proof. transitivity (hf + hf); [ring | exact (law_half O L)]. Qed.
+  Theorem phasor_compose l wn wp wn' wp' :
+    mmul O (phasor_mat l wn wp) (phasor_mat l wn' wp') = phasor_mat l (wn * wn') (wp * wp').
+  Proof.
+    unfold Pauli.phasor_mat. rewrite (phasor_algebra O (PLaws_of_Laws O L)). unfold Pauli.lin_ip.
+    f_equal; f_equal.
+    - transitivity (((k1 O + k1 O) * hf) * (hf * (wp * wp' + wn * wn'))); [ring|rewrite half2'; ring].
+    - transitivity (((k1 O + k1 O) * hf) * (hf * (wp * wp' - wn * wn'))); [ring|rewrite half2'; ring].
+  Qed.
+  Theorem phasor_minus_one l : phasor_mat l (kopp O (k1 O)) (k1 O) = dense_matrix O (k1 O) l.
+  Proof.
+    unfold Pauli.phasor_mat. rewrite <- (lin_ip_P O (PLaws_of_Laws O L)). unfold Pauli.lin_ip. f_equal; f_equal.
+    - ring.
+    - transitivity ((k1 O + k1 O) * hf); [ring|apply half2'].
+  Qed.
+End Phasor.
